@@ -224,9 +224,9 @@ for (m, k, sz, al, dp, off, uw, lim, ex) in F3_LIST:
 
 
 for m in (1, 16):
-    H("f3_new_chunk_prev_m%d" % m, "__verif::f3", "F3", quick=["C03"] + (["C08"] if m == 1 else []), thorough=["C03", "C08", "C10"], timeout=900, cost=20, stubs=STUB_POOL,
+    H("f3_new_chunk_prev_m%d" % m, "__verif::f3", "F3", quick=["C03"] + (["C08"] if m == 1 else ["C07", "C08"]), thorough=["C03", "C07", "C08", "C10"], timeout=900, cost=20, stubs=STUB_POOL,
       inst="Bump<%d>" % m, funcs=["Bump::new_chunk", "Bump::new_chunk_memory_details"], exempt=[r"chunk created and released"],
-      bounds={"predecessor": "one registered 448-byte chunk, finger anywhere (incl. completely unused)", "request": "concrete"})
+      bounds={"predecessor": "one registered 448-byte chunk (m1) / a list of two registered chunks (m16), fingers anywhere (incl. completely unused)", "request": "concrete"})
 for (m, sz, al, dp) in [(1, 64, 64, 1), (1, 10, 32, 3), (16, 100, 8, 1), (8, 600, 128, 0)]:
     H("f3_new_chunk_m%d_s%d_a%d_d%d" % (m, sz, al, dp), "__verif::f3", "F3", quick=["C03", "C04", "C08"] if al >= 32 else ["C03"], thorough=["C01", "C03", "C04", "C08"],
       timeout=900, cost=15, stubs=STUB_POOL, inst="Bump<%d>" % m, funcs=["Bump::new_chunk", "Bump::new_chunk_memory_details", "dealloc_chunk_list"],
@@ -390,7 +390,7 @@ for nm in ("to_end", "remove"):
 LOSSY_MOD = "collections::str::lossy::__verif_lossy"
 H("s2_char_width", LOSSY_MOD, "S2", quick=["C14"], cost=3, inst="-", funcs=["collections::str::utf8_char_width", "UTF8_CHAR_WIDTH table"], bounds={"byte": "all 256 values"})
 for n in (2, 3, 4):
-    H("s2_lossy_n%d" % n, LOSSY_MOD, "S2", quick=["C14"] if n == 3 else [], thorough=["C14"], timeout=2400, cost=60, mem_gb=16, inst="-",
+    H("s2_lossy_n%d" % n, LOSSY_MOD, "S2", quick=["C14"] if n in (2, 3) else [], thorough=["C14"], timeout=2400, cost=60, mem_gb=16, inst="-",
       funcs=["Utf8LossyChunksIter::next"], bounds={"input": "every byte string of 1..%d bytes" % n, "oracle": "RFC 3629 maximal-subpart spec (validated natively against <[u8]>::utf8_chunks)"})
 S1 = ["push_str", "pop", "insert", "insert_str", "remove", "truncate", "split_off", "drain", "retain"]
 S1_QUICK = {("push_str", 3), ("pop", 4), ("insert", 3), ("remove", 4), ("truncate", 3), ("drain", 4), ("split_off", 2)}
@@ -405,7 +405,7 @@ for op in ["insert", "insert_str", "remove", "truncate", "split_off", "drain"]:
           timeout=2400, cost=40, mem_gb=16, stubs=STUB_CUT + STUB_LOOPS, inst="String", funcs=["collections::String::" + op],
           allow=[r"is_char_boundary|assertion failed|out of bounds|index|range|slice|byte index|cannot remove|placeholder message"],
           bounds={"text": "any valid UTF-8 of exactly %d bytes" % n, "index/range": "any ILLEGAL value (non-boundary or out of range)", "expectation": "the call does not return"})
-for nm, q in (("n2_w1", 0), ("n2_w2", 1), ("n3_w3", 1), ("n4_w4", 1), ("n0_w4", 0), ("n2_w2_s3", 0)):
+for nm, q in (("n2_w2", 1), ("n3_w3", 1), ("n4_w4", 1), ("n0_w4", 0), ("n2_w2_s3", 0)):
     H("s1_pushw_" + nm, "__verif::s1", "S1", quick=["C14", "C18"] if q else [], thorough=["C14", "C18"], timeout=1500, cost=40, mem_gb=16, stubs=STUB_CUT + STUB_LOOPS, inst="String",
       funcs=["collections::String::push", "collections::Vec::extend_from_slice", "<Vec as Extend>::extend", "collections::String::with_capacity_in"],
       bounds={"text": "any valid UTF-8 of exactly N bytes (instance name: nN)", "char": "width W concrete per instance (wW): any ASCII for W=1, U+00E9 / U+20AC / U+1D11E otherwise", "capacity": "exactly N + W (+3 for _s3): the push must neither move nor regrow the buffer"})
